@@ -696,22 +696,88 @@ func c11R4(p *Prog, r *Report) {
 	} else {
 		r.OK("builder.buildTargetVar/constructor call", p.PosStr(call.Pos()), "gen.CallMethod(ctx, ctx.Conf.Constructor, …)")
 	}
-	// guard: reached only when !( !UseConstructor || !Identical(src) || !Identical(tgt) )
-	b := call.Block()
-	haveUse := false
-	nIdent := 0
-	for _, f := range factsAt(b) {
-		if loadsField(f, "UseConstructor") {
-			haveUse = true
+	// guard: the constructor call is reached only when UseConstructor ∧ Identical(method source, source) ∧
+	// Identical(method target, target) — decided by evaluation: with any one of the three fixed to false no
+	// return is reached after the call (private predicate helpers are followed)
+	{
+		identKind := func(v ssa.Value) string {
+			c, ok := v.(*ssa.Call)
+			if !ok || ssaCalleeObj(c) == nil || !isFunc(ssaCalleeObj(c), "go/types", "", "Identical") || len(c.Call.Args) != 2 {
+				return ""
+			}
+			kind := ""
+			for _, a := range c.Call.Args {
+				var walk func(x ssa.Value, d int)
+				walk = func(x ssa.Value, d int) {
+					if d > 6 || x == nil {
+						return
+					}
+					switch y := x.(type) {
+					case *ssa.UnOp:
+						walk(y.X, d+1)
+					case *ssa.MakeInterface:
+						walk(y.X, d+1)
+					case *ssa.FieldAddr:
+						if n := fieldName(y); n == "Conf" {
+							return
+						} else if (n == "Source" || n == "Target") && kind == "" {
+							// Conf.Source / Conf.Target: only when reached through the method configuration
+							if inner, ok := y.X.(*ssa.UnOp); ok {
+								if fa2, ok := inner.X.(*ssa.FieldAddr); ok && fieldName(fa2) == "Conf" {
+									kind = n
+								}
+							}
+							if fa2, ok := y.X.(*ssa.FieldAddr); ok && (fieldName(fa2) == "Conf" || fieldName(fa2) == "Method" || fieldName(fa2) == "Definition" || fieldName(fa2) == "Parameters") {
+								kind = n
+							}
+						}
+						walk(y.X, d+1)
+					case *ssa.Field:
+						walk(y.X, d+1)
+					}
+				}
+				walk(a, 0)
+			}
+			return kind
 		}
-		if c, ok := f.(*ssa.Call); ok && ssaCalleeObj(c) != nil && isFunc(ssaCalleeObj(c), "go/types", "", "Identical") {
-			nIdent++
+		run := func(which string) (*ssa.Return, int) {
+			nAtoms := 0
+			sc := &absScenario{
+				assume: func(v ssa.Value, _ func(ssa.Value) absVal) (absVal, bool) {
+					if loadsFieldNamed(v, "UseConstructor") {
+						nAtoms++
+						return aBool(which != "UseConstructor"), true
+					}
+					if k := identKind(v); k != "" {
+						nAtoms++
+						return aBool(which != k), true
+					}
+					return aUnknown, false
+				},
+				marks: func(in ssa.Instruction) (string, bool) {
+					return "ctor", in == call
+				},
+			}
+			got := absReachState(sf, sc, func(ret *ssa.Return, _ func(ssa.Value) absVal, st map[string]absVal) bool {
+				_, passed := st["@ctor"]
+				return passed
+			})
+			return got, nAtoms
 		}
-	}
-	if haveUse && nIdent >= 2 {
-		r.OK("builder.buildTargetVar/guard", p.PosStr(call.Pos()), "UseConstructor ∧ types.Identical(method source, source) ∧ types.Identical(method target, target)")
-	} else {
-		r.Bad("builder.buildTargetVar/guard", p.PosStr(call.Pos()), fmt.Sprintf("the constructor can be used without UseConstructor (%v) and identity of both method types (%d/2): FUNC would run for nested values or more than once", haveUse, nIdent))
+		bad := ""
+		for _, which := range []string{"UseConstructor", "Source", "Target"} {
+			if got, _ := run(which); got != nil {
+				bad = "the constructor can be called although " + map[string]string{"UseConstructor": "ctx.UseConstructor is false", "Source": "the method's source type is not identical to the current source", "Target": "the method's target type is not identical to the current target"}[which] + ": FUNC would run for nested values or more than once"
+			}
+		}
+		if got, n := run("none"); bad == "" && (got == nil || n < 3) {
+			bad = "the guard of the constructor call (UseConstructor and two types.Identical tests on the method's source/target) is not recognisable"
+		}
+		if bad == "" {
+			r.OK("builder.buildTargetVar/guard", p.PosStr(call.Pos()), "UseConstructor ∧ types.Identical(method source, source) ∧ types.Identical(method target, target)")
+		} else {
+			r.Bad("builder.buildTargetVar/guard", p.PosStr(call.Pos()), bad)
+		}
 	}
 	// UseConstructor = false before the call
 	var clr ssa.Instruction
@@ -724,6 +790,7 @@ func c11R4(p *Prog, r *Report) {
 			}
 		}
 	})
+	b := call.Block()
 	if clr != nil && (clr.Block().Dominates(b) && (clr.Block() != b || instrIndex(clr) < instrIndex(call))) {
 		r.OK("builder.buildTargetVar/used once", p.PosStr(clr.Pos()), "ctx.UseConstructor = false dominates the constructor call")
 	} else {
